@@ -1,6 +1,6 @@
 (* C19: command-line flag values. *)
 From Coq Require Import ZArith List Bool.
-From V Require Import Base.Wire Base.Duration Base.Str Model.Flags.
+From V Require Import Base.Wire Base.Duration Base.Str Base.DurString Model.Flags.
 Import ListNotations.
 Open Scope Z_scope.
 Open Scope rd_scope.
@@ -42,7 +42,9 @@ Definition check_rate : rd verdict :=
         match rate_set true (50, 1000000000) istr with
         | Some (f, p) => prop_ok 6 ((f =? ifreq) && (p =? iper)) [f; p; ifreq; iper]
         | None => VProp 6 []
-        end ] in
+        end;
+        (* the printed form is the one the model prints (Itoa, '/', Duration.String) *)
+        if str_eqb istr (itoa ifreq ++ 47 :: dur_string iper) then VOk else VDiff 15 [ifreq; iper] ] in
   ret (combine_verdicts [vprint; vdiff]).
 
 (* kind 11: the generator's intent: N per D; special 1 = "0", 2 = "infinity", 3 = malformed *)
